@@ -57,6 +57,12 @@ CHECKS = {
  "C14": dict(tech="exhaustive enumeration of method signature families x value variants x argument forms; inner group recorded by the reference AVM decoded by an independent callee-side ARC-4 decoder",
              text="For C09's signature families, ExecuteMethodCall with ABI values and with pre-encoded expressions, with and without extra fields: the recorded inner group must decode (selector, per-argument app args with arguments 15+ as one tuple, references through foreign arrays, transaction arguments as the preceding inner transactions) to the arguments given; ill-typed arguments must be rejected at build time.",
              note="algosdk.abi as decoder; reference AVM inner transaction model", ref="2/C14"),
+ "C11": dict(tech="explicit-state exploration of API-activity histories (length <= L over 17 activities) replayed in children forked from fresh interpreters; probes compared byte-for-byte with history-free baselines; baselines compared across hash seeds",
+             text="The stateful property: every history of earlier API activity (successful and failing compilations at various versions/options, subroutine bodies raising with and without frame pointers, unused definitions, has_return probing, templates, router builds, source-map gate toggling) up to the length bound is replayed in a child forked from a fresh interpreter, then six probes x two versions are compiled and compared with the baseline of a fresh process; baselines are compared across six hash seeds and shifted allocation; repeated compilation of one expression / one router must reproduce the text. Global states reached are reported.",
+             note="hash seeds / allocation order cannot be exhausted (finite listed set); histories exhaustive up to the bound", ref="2/C11"),
+ "C15": dict(tech="exhaustive round-trip enumeration of the VLQ codec and small R3 maps; recipes rendered as generated Python source files compiled with source maps in fresh interpreters (gate on/off), checked line by line against recorded marker positions",
+             text="Every integer of a range and every short tuple through the VLQ codec; every small Revision-3 map through to_json/from_json; control-flow and call-graph recipes rendered as generated source files (two modules, a unique marker constant per line, a variant with 3000 leading blank lines) compiled with_sourcemap under every annotate option: TEAL identical with/without map and with the gate on/off, one entry per TEAL line in order, existing file and line, each marker attributed to the line that wrote it, JSON round trip, annotated TEAL equal to plain TEAL once comments are removed.",
+             note="PC-based maps (algod) out of scope; generated files live in a scratch directory under /tmp that is removed", ref="2/C15"),
 }
 NOT_YET = {}
 props = [json.loads(l) for l in open(os.path.join(HERE, "properties.jsonl"))]
